@@ -56,6 +56,7 @@ struct ItemSpec {
     forpat: bool,
     fmt_nonempty: bool,
     add_ufcs: bool,
+    param_types: Vec<(String, String)>,   // R12: parameter NAME gets the type TEXT (impl Iterator -> SeqIter)
     viter: bool,                         // apply R5 (iterator entry) to this item
     attrs: Vec<String>,                  // extra attributes (e.g. verifier::rlimit)
     replace_macros: Vec<(String, String)>, // R1b: statement macro -> nothing (named)
@@ -334,6 +335,7 @@ fn parse_template(text: &str) -> Vec<Result<String, ItemSpec>> {
                         "forpat" => spec.forpat = true,
                         "fmt-nonempty" => spec.fmt_nonempty = true,
                         "add-ufcs" => spec.add_ufcs = true,
+                        "param-type" => { let (n, t) = arg.split_once(char::is_whitespace).unwrap_or_else(|| die("//@param-type NAME TYPE")); spec.param_types.push((n.trim().to_string(), t.trim().to_string())); }
                         "drop-derive" => spec.drop_derive.push(arg.to_string()),
                         "attr" => spec.attrs.push(arg.to_string()),
                         "loop" => {
@@ -887,6 +889,26 @@ fn fn_edits(
     } else if spec.retname.is_some() || spec.ret.is_some() {
         die(&format!("{}: //@retname on a function without return type", spec.selector));
     }
+    // R12: parameter type replacement (only `impl Iterator<..>` parameters, A-iter)
+    for (pname, pty) in &spec.param_types {
+        let mut found = false;
+        for inp in sig.inputs.iter() {
+            if let syn::FnArg::Typed(pt) = inp {
+                if let syn::Pat::Ident(pi) = &*pt.pat {
+                    if pi.ident == pname {
+                        let (ts, te) = br(pt.ty.span());
+                        if !matches!(&*pt.ty, syn::Type::ImplTrait(_)) {
+                            die(&format!("{}: //@param-type {}: only `impl Trait` parameters may be retyped", spec.selector, pname));
+                        }
+                        edits.push(Edit { start: ts, end: te, text: pty.clone(), kind: "R12 param type".into(), prio: 0 });
+                        rewrites.push(format!("R12 parameter `{}: {}` -> `{}`", pname, norm(&src[ts..te]), pty));
+                        found = true;
+                    }
+                }
+            }
+        }
+        if !found { die(&format!("lost anchor: parameter {} in {}", pname, spec.selector)); }
+    }
     // contract
     if !spec.sig.is_empty() {
         let mut t = String::from("\n");
@@ -1056,6 +1078,7 @@ fn inner_edits(spec: &ItemSpec, src: &str, block: &syn::Block, c: &rewrite::Coll
     if spec.add_ufcs {
         rewrite::add_ufcs_edits(block, src, edits, rewrites);
     }
+    rewrite::continue_edits(block, src, edits, rewrites);
 }
 
 pub fn die_pub(msg: &str) -> ! {
